@@ -93,12 +93,17 @@ def execute(ctx, case):
     recs = [it["rec"] for it in items if it["t"] == "feat"]
     ck = case["checklines"]
     # the dialect the reference vote expects, under both window conventions
-    votes = [F.window_vote(recs, D, ck), F.window_vote(recs, D, ck + 1)]
-    if not all(F.same_dialect(v, D) for v in votes) or votes[0]["order"] != votes[1]["order"] and case["keep_order"]:
-        ctx.skip("reference vote does not recover the dialect (%s regime)" % case["regime"])
-        if case["regime"] == "uniform" and ck > 0:
-            ctx.note("harness: a uniform-regime file was skipped: %r" % (votes,))
-        return False
+    if case["regime"] == "uniform":
+        # every line alone exhibits the whole dialect and line 1 carries every key: the statement asks for
+        # byte identity whatever the window is
+        votes = [F.window_vote(recs, D, 1)] * 2
+        if not F.same_dialect(votes[0], D):
+            raise AssertionError("harness: uniform-regime file does not exhibit its dialect: %r" % (votes[0],))
+    else:
+        votes = [F.window_vote(recs, D, ck), F.window_vote(recs, D, ck + 1)]
+        if not all(F.same_dialect(v, D) for v in votes) or (votes[0]["order"] != votes[1]["order"] and case["keep_order"]):
+            ctx.skip("sparse regime: reference vote does not recover the dialect under both window conventions")
+            return False
     voted = votes[1]
     text = F.text_of(items, D, final_newline=case["final_newline"])
     lines = F.feature_lines(items, D)
